@@ -488,6 +488,8 @@ def run_case(case, res):
                         bad.append("same-tree copy: an edit of the copy (with_clones=False) is visible in the source branch")
                     res.count("same_tree_interference_tests")
                     # undo for the source-unchanged check below: drop the copies again
+                if not bad:
+                    follow_up_copies(src_t, got_nodes, typed, res, bad, "after a copy inside the same tree")
                 for g in got_nodes:
                     if g._tree is not None:
                         g.remove()
@@ -531,6 +533,9 @@ def run_case(case, res):
                 if ident(copy_tree) != snap_copy:
                     bad.append("a mutation of the source is visible in the copy")
                 res.count("interference_tests")
+            if not bad and route != "add_node_into_own_branch":
+                for tr in {id(x): x for x in (src_t, other_t, copy_side_tree) if x is not None and hasattr(x, "copy_to")}.values():
+                    follow_up_copies(tr, [], typed, res, bad, "after the copy and the edits on both sides")
     except CaseTimeout:
         res.inconc("case watchdog fired")
         return
@@ -538,6 +543,37 @@ def run_case(case, res):
         note_exc(res, bad, "exception escaped from the library: ")
     if bad:
         res.violation(case, "; ".join(bad[:2])[:2500], n_bad=len(bad))
+
+
+def follow_up_copies(tree, new_nodes, typed, res, bad, when):
+    """A copy made earlier must not influence later ones: a full copy of the tree, and a copy of the parent branch of each
+    node the earlier call created, reproduce what is there *now*."""
+    def same(got, exp, what):
+        if got != exp:
+            dk = getattr(tree, "DEFAULT_CHILD_TYPE", "child")
+            if typed and got == default_top_kinds(exp, dk):
+                return  # the listed kind finding (reported by the main comparison)
+            bad.append(f"{when}: {what} is not faithful: {got!r} vs {exp!r}"[:1200])
+
+    try:
+        cp = tree.copy()
+        res.count("follow_up_copies")
+        same(shape(cp.children), shape(tree.children), "a later Tree.copy()")
+        for g in new_nodes[:2]:
+            par = g.parent
+            if par is not None and g._tree is tree:
+                cpb = par.copy()  # a new tree holding the branch of the parent
+                same(shape(cpb.children), shape([par]), "a later Node.copy() of the parent of the earlier copy")
+                other = type(tree)("elsewhere")
+                hook = other.add("X", **({"kind": "kx"} if typed else {}))
+                nn = hook.add(par, deep=True, **({"kind": par.kind} if typed else {}))
+                same(shape([nn]), shape([par]), "a later deep add of that parent to another tree")
+    except Exception:
+        from ..core import exc_in_library
+
+        if not exc_in_library():
+            raise
+        bad.append(f"{when}: a later copy raised: " + short_tb(4))
 
 
 def describe(nodes):
